@@ -53,6 +53,7 @@ type Req struct {
 	Governed    string
 	GotData     bool // a get that was answered with the resource (not an error)
 	NotFound    bool // a get that was answered with system.notFound (or had no responders)
+	StrayQuery bool // the answer carried a query although the resource is not a query resource
 	Rf          int8 // 0 = not a reset re-fetch, 1 = undecidable from outside, 2 = certainly one (set when sent)
 }
 
